@@ -298,6 +298,16 @@ class Model:
                 res.append(mk(name, x.val[idx], x.jac[idx], x.jabs[idx], x.vabs[idx]))
                 start += s
             return res
+        if op == "take":
+            x = ins[0]
+            idx = np.array(p["idx"], dtype=np.int64)
+            return [mk(outs[0], x.val.reshape(-1)[idx], x.jac.reshape(-1, P)[idx], x.jabs.reshape(-1, P)[idx], x.vabs.reshape(-1)[idx])]
+        if op == "where":
+            a, b = ins
+            mask = np.array(p["mask"], dtype=bool).reshape(a.shape)
+            return [
+                mk(outs[0], np.where(mask, a.val, b.val), np.where(mask[..., None], a.jac, b.jac), np.where(mask[..., None], a.jabs, b.jabs), np.where(mask, a.vabs, b.vabs))
+            ]
         if op == "detach":
             x = ins[0]
             return [
